@@ -82,8 +82,29 @@ def reduce_iadd(ctx):
         return res
     F = FA.facts()
     F.dims.add("B")
+    F.pos_syms.add("B")          # at least one per-class contribution
     cl = K.check_function(I, "factor_analysis.reduce_iadd", build, spec, F, "C09.reduce", structural=False)
-    return collapse([c for c in cl if c.name.startswith("C09.reduce.result")], "C09.reduce", "reduce_iadd(lists...) == [Σ of every list] (each element once)")
+    cl = [c for c in cl if c.name.startswith("C09.reduce.result") or c.status != "discharged"]
+    # concrete list lengths 1..6 (symbolic contents): every element enters the result exactly once
+    for n in range(1, 7):
+        I = new_interp()
+
+        def build_n(n=n):
+            return [[Arr((G.Cc,), (lambda b: lambda c: T.app("a1", Poly.const(b), c))(b)) for b in range(n)],
+                    [Arr((G.Cc, FA.RU), (lambda b: lambda c, r: T.app("a2", Poly.const(b), c, r))(b)) for b in range(n)]], {}
+
+        def spec_n(ctx_, *lists):
+            res = []
+            for l in lists:
+                tot = l[0]
+                for x in l[1:]:
+                    tot = tot + x
+                # the in-place fold lands in the first element of each list (they are fresh accumulators)
+                res.append(tot)
+            return res
+        c2 = K.check_function(I, "factor_analysis.reduce_iadd", build_n, spec_n, F, "C09.reduce.len%d" % n, structural=False)
+        cl += [c for c in c2 if ".result" in c.name or ".raises" in c.name]
+    return collapse(cl, "C09.reduce", "reduce_iadd(lists...) == [Σ of every list] (each element once): symbolic length, and lengths 1..6")
 
 
 def handover(ctx):
@@ -166,7 +187,7 @@ BOUNDED = [bounded("fa_repro.py", "phases", "C09.estep-acc-mstep",
                    "marginal likelihood of each phase non-decreasing over 6 E/M iterations (float64, rel. tol. 1e-9); subspaces finite with the stated shapes")]
 SHARED = [("C07", "leaf_compute_fn_y_i", ["C07.fn_y"]), ("C07", "fn_x_all", ["C07.fn_x"]), ("C07", "fn_z_all", ["C07.fn_z"]),
           ("C07", "prec_all", ["C07.prec.x", "C07.prec.y", "C07.prec.z", "C07.uprod", "C07.vprod"])]
-REPLAY = [("C09.ascent", "fa_repro.py", "phase_ascent", {}), ("C09", "fa_repro.py", "phases", {})]
+REPLAY = [("C09.reduce", "fa_repro.py", "dask_classes", {}), ("C09.handover", "fa_repro.py", "dask_classes", {}), ("C09.ascent", "fa_repro.py", "phase_ascent", {}), ("C09", "fa_repro.py", "phases", {})]
 LEVEL = "other"
 EXPLANATION = ("M-steps, accumulator reduction, phase hand-over/copy-back and all leaf formulas are proved for all shapes (obligations/discharged). "
                "The E-step orchestration (posterior per class/session, accumulators) and the ascent clause are checked by the bounded objrun engine "
@@ -174,3 +195,4 @@ EXPLANATION = ("M-steps, accumulator reduction, phase hand-over/copy-back and al
 TRUSTED = ["L-EM-LG: for a linear-Gaussian latent model, an exact E-step followed by the M-step solving the normal equations never decreases the marginal likelihood",
            "np.linalg.inv contract; compound axis C*D row-major"]
 ASSUMPTIONS = ["UBM variances > 0; every class has >= 1 session"]
+XCHECK = ['fa']
